@@ -268,6 +268,58 @@ def bounded_native(ck, model=None):
     return out
 
 
+def pipeline_wiring(ck):
+    """compute(): the cloud model the configuration names is the one the optical stage evaluates with -- built from the run's configuration
+    and handed to EAS.__call__ as its `cloudf` (an extra positional argument would disappear in *args and leave every event cloud-free)"""
+    from contracts.compute_model import Model
+
+    ck.add_file("nuspacesim/compute.py")
+    for mode in ("Diffuse", "Target"):
+        for cloud in ("mono", "none"):
+            m = Model(mode=mode, optical=True, radio=False, cloud=cloud)
+            paths = m.run()
+            tag = "compute[%s,cloud=%s]" % (mode, cloud)
+            calls = [(p, c) for p in paths if p.kind == "return" for c in p.state["log"] if c[0] == "call" and c[1] == "EAS.__call__"]
+            if not calls or any(p.kind == "unsupported" for p in paths):
+                o = ck.ob("%s/exec" % tag, "exec")
+                o.note = "; ".join("%s %s" % (p.kind, p.exc) for p in paths)[:300]
+                ck._undecided(o, None)
+                continue
+            for p, c in calls:
+                extra, kw = c[2][5:], c[3]
+                cf = kw.get("cloudf")
+                # (the constructors are contract stubs that keep the configuration they were given)
+                ok = (not extra) and type(cf).__name__ == "CloudTopHeight" and getattr(cf, "config", None) is p.state["cfg"]
+                ck.direct("%s/call.cloud_model" % tag, ok, "post", "call log of the symbolic execution (stage contracts)",
+                          clause="the optical stage is called with cloudf = the cloud model of the run's configuration, and with no surplus positional argument",
+                          note="" if ok else "positional extras: %s; cloudf: %s" % ([type(x).__name__ for x in extra], type(cf).__name__),
+                          witness=None if ok else {"mode": mode, "cloud_model": cloud}, replay_out=None if ok else native_pipeline_cloud(ck))
+
+
+def native_pipeline_cloud(ck):
+    """real compute() with a uniform cloud above every shower: no event may produce light"""
+    import contextlib
+    import importlib
+    import io
+
+    import dask
+    from nuspacesim.config import NssConfig, Simulation
+
+    C = importlib.import_module("nuspacesim.compute")
+    cfg = NssConfig()
+    cfg.simulation.thrown_events = 300
+    cfg.detector.radio.enable = False
+    cfg.simulation.cloud_model = Simulation.MonoCloud(altitude=70.0)
+    try:
+        with contextlib.redirect_stdout(io.StringIO()), contextlib.redirect_stderr(io.StringIO()), dask.config.set(scheduler="synchronous"), np.errstate(all="ignore"):
+            np.random.seed(ck.seed + 9)
+            t = C.compute(cfg)
+        lit = int(np.count_nonzero(np.asarray(t["numPEs"], float) > 0)) if "numPEs" in t.colnames else 0
+        return {"violated": lit > 0, "input": {"cloud_model": "MonoCloud(altitude=70 km)", "thrown_events": 300, "seed": ck.seed + 9}, "observed": {"events with light below a cloud top above the whole shower": lit, "rows": len(t)}}
+    except Exception as ex:
+        return {"violated": None, "note": "native run failed: %r" % ex}
+
+
 def run(ck):
     ck.assume("us_std_atm_altitude_from_pressure is replaced by its C19 contract (uninterpreted function of the pressure)",
               "numpy searchsorted(grid, x) on an increasing uniform grid returns the k with grid[k-1] < x <= grid[k]; the cell convention is the code's own (derived from its use of searchsorted)",
@@ -282,5 +334,6 @@ def run(ck):
     from contracts import C08
 
     C08.stage(ck)  # the kernel receives each in-range event's OWN ground latitude / longitude and the cloud model
+    pipeline_wiring(ck)
     ck.bounded_run("real map lookups and real kernel under cloud tops", lambda: bounded_native(ck),
                    design="months {3,9} (quick) / all 12 (thorough) x 2 constructions x 20 locations vs independent lookup on the FITS file; 4 showers x cloud tops at -inf, below / at the first segment, between the last two, above the last, +inf, two tops inside one step")
